@@ -27,10 +27,11 @@ def run(tier, rng, C):
     n = 4000 if tier == 'quick' else 120000
     for _ in range(n):
         stacks.append(over_stack(rng))
+    stacks += MC.nested_sequences(rng, 1500 if tier == 'quick' else 40000, markers=('', '', '~', '~'))
     cases = MC.build_cases(C, stacks)
     for c in cases:
         c['nontrivial'] = V.has_marker(c['layers'], '~')
     rule = ('exhaustive kind stacks containing an override marker (incl. override after a type conflict, override with no '
             'earlier value, kind changes) + %d random stacks with ~k at random layers and depth 0-2 with sibling keys; '
-            'non-trivial = an override marker present; oracle = extracted Spec/DeepMerge.v' % n)
+            'non-trivial = an override marker present; plus sequences of 3-5 layers giving one nested key values of random kinds (nulls, empty containers); oracle = extracted Spec/DeepMerge.v' % n)
     return C.standard_run(cases, rule, key_fn=lambda c, m, i, r: 'model-impl-differ', extra_oracle=MC.spec_oracle(C))
